@@ -88,7 +88,7 @@ func (st *evalState) eval1(V ssa.Value) (int64, bool) {
 	if k, ok := ssax.ConstInt(V); ok {
 		return a.truncT(k, V.Type()), true
 	}
-	if rc := a.rowConstOf(V); rc != nil {
+	if rc := a.rowConstOf(V); rc != nil && !rc.str {
 		if k, ok := a.curRow[rc.idx]; ok && k >= 0 && k < len(rc.vals) {
 			return a.truncT(rc.vals[k], V.Type()), true
 		}
